@@ -222,6 +222,10 @@ class SymCtx(BaseCtx):
     def env_int(self, name):
         return self.E.fresh_int("env:" + name)
 
+    def env_choice(self, n, name):
+        """arbitrary environment integer in range(n): a free n-way choice, every value explored"""
+        return self.E.fork(n, "env:" + name)
+
     def forks_so_far(self):
         return len(self.E.alts)
 
@@ -550,6 +554,9 @@ class ConcCtx(BaseCtx):
     def env_int(self, name):
         v = self._next("int")
         return int(Fraction(int(v[0]), int(v[1])))
+
+    def env_choice(self, n, name):
+        return int(self._next("choice"))
 
     def forks_so_far(self):
         return 0
